@@ -164,9 +164,9 @@ type c12slot struct {
 
 func c12n(tier string) int {
 	if tier == "thorough" {
-		return len(c12classes) * 2500
+		return len(c12classes) * 10000
 	}
-	return len(c12classes) * 90
+	return len(c12classes) * 300
 }
 
 func c12run(c *fw.Ctx, idx int) {
